@@ -2,3 +2,6 @@ package model
 
 // A lives in a package whose last segment clashes with clb/model.
 type A struct{ X int }
+
+// Item has the same package name AND type name as the Item of the other model package.
+type Item struct{ N int }
